@@ -107,6 +107,14 @@ CLAIMED = {
         "Props/C02Multi.lean: a scan restricted to the `events` container of a chained plan is the unrestricted scan filtered by "
         "membership, so the candidates of a MultiIndex plan contain every id both unrestricted scans yield (C02_kv_multi_candidates; "
         "C02_kv_kinds_tags_filter_complete as the worked REQ-level instance). "
+        "Props/C02MultiMore.lean: the other two chained plans (authors + tags, authors + kinds + tags), in either order of the two "
+        "indexes. Props/C02Created.lean: the created_at range scan serving a filter that names only since / until "
+        "(C02_kv_created_complete, _reachable, C02_kv_created_filter_complete); its proof attempt forced the hypothesis 'timestamp "
+        "below ff000000', which was run against the real code and is a repaired defect (fix: 5c4c0eb; old behaviour kept as "
+        "C02_kv_range_old_start_witness). Props/C02General.lean: ONE statement over every plan the planner can make — "
+        "C02_kv_filter_complete: for every filter satisfying ValidFilter (what NostrQuery validation delivers + the two tag-index "
+        "hypotheses), every history of writer tasks and whichever of the nine plan shapes serves it, every stored strict match is "
+        "delivered when the limit does not truncate. "
         "Partial: with `since` and with NUL characters the tag index is covered by the conditional theorem "
         "(C02_kv_scan_complete), the witnesses of the open findings kv-tag-prefix-since / kv-tag-nul-extension-window and "
         "the search only. Trusted: as C01. Domain: well-formed conjunctive filters (not {} / pure unbounded range scans, "
